@@ -113,6 +113,8 @@ void ImportProject::parseArgs(FileSettings &fs, const std::vector<std::string> &
 {
     const auto getOptArg = [&args](std::initializer_list<std::string> optNames,
                                    std::size_t &i) {
+        if (i >= args.size())
+            return std::string();
         const auto &arg = args[i];
         const auto *const it = std::find_if(optNames.begin(),
                                             optNames.end(),
